@@ -259,7 +259,7 @@ var failures = []failure{
 			h.Feed(hdr[:n])
 			h.EOF()
 			kit.Quiesce()
-			kit.Sleep(50 * time.Millisecond)
+			kit.Sleep(2 * time.Second)
 			kit.Quiesce()
 			if !h.ClosedByMangos() {
 				kit.Failf("aborted-handshake-not-closed", "a connection that ended after %d header bytes was left open", n)
@@ -271,7 +271,7 @@ var failures = []failure{
 		g := ep.Connect()
 		g.Feed(hdr)
 		kit.Quiesce()
-		kit.Sleep(50 * time.Millisecond)
+		kit.Sleep(2 * time.Second)
 		kit.Quiesce()
 		if w.byAddr["tcp://"+addr] != 1 && !(w.single() && len(w.pipes) > before) {
 			kit.Failf("listener-stopped-accepting:tcp", "%s: after two peers hung up during the handshake a well-behaved TCP peer does not attach any more", w.k.Name)
